@@ -201,6 +201,45 @@ def run(tier):
                 ck.finding("R3.correctly-rounded-reader", "R3.number-provenance/%s" % f.parent, F.short_span(s[3]),
                            "`%s` builds a Number whose value comes neither from str::parse::<f64> nor from a single integer->float cast" % f.parent)
 
+    # R3d: one reader.  Rust's `str::parse::<f64>` is not StringToNumber: it accepts "inf", "infinity", "nan" in any case and rejects
+    # "", " 1 ", "0x10", "Infinity"-only spellings the language defines.  Script text therefore becomes a double only inside the designated
+    # readers (which screen the text first) or their private helpers; every other native calls a reader.
+    READERS = ("value::string_to_number", "value::radix_digits_to_number", "interpreter::builtins::global::global_parse_float")
+    ck.rule("R3d.one-text-reader", "in src/value.rs and src/interpreter, `parse::<f64>` is applied to script text only inside the designated readers "
+                                   "(string_to_number, radix_digits_to_number, the parseFloat prefix reader) or helpers called only from them", floor=3)
+    for rd in READERS:
+        ck.anchor(rd in fx.fns, "reader " + rd)
+    enum_arms = {}
+    for p3, f3 in sorted(fx.fns.items()):
+        if f3.derived or not f3.file.startswith(("src/value.rs", "src/interpreter")):
+            continue
+        top3 = f3.parent if f3.closure else f3.path
+        for bi, t in f3.calls():
+            d = t[1].get("d") or ""
+            targs3 = [fx.tys(x) for x in t[1].get("targs", [])]
+            if not (d.endswith(("str::<impl str>::parse", "JsString::parse")) and targs3 and targs3[0] == "f64"):
+                continue
+            ok = top3 in READERS or M.only_called_from(fx, top3, set(READERS))
+            why = "designated reader" if top3 in READERS else "helper of a reader"
+            if not ok:
+                # reverse lookup of an enum member by value (`E["1.5"]`) inside the arms of ExoticObject::Enum / in EnumData: the text is a
+                # property key that is compared with member values, not converted for the script; enums are lowered to plain objects
+                if top3.startswith("value::EnumData::"):
+                    ok, why = True, "EnumData reverse lookup by value (not a conversion handed to the script)"
+                else:
+                    if p3 not in enum_arms:
+                        enum_arms[p3] = set()
+                        for b2, en, pl, arms, other, rest in M.enum_switches(fx, f3):
+                            if str(en).endswith("ExoticObject") and "Enum" in arms and all(q == b2 for q in f3.preds()[arms["Enum"]]):
+                                enum_arms[p3] |= M.dominated_region(f3, arms["Enum"])
+                    if bi in enum_arms[p3]:
+                        ok, why = True, "reverse lookup of an enum member by value inside the ExoticObject::Enum arm"
+            ck.instance("R3d.one-text-reader", "%s [%s]" % (f3.path, why if ok else "not a reader"), F.short_span(t[6]), ok=ok)
+            if not ok:
+                ck.finding("R3d.one-text-reader", "R3d.one-text-reader/%s" % top3, F.short_span(t[6]),
+                           "`%s` converts script text with Rust's `parse::<f64>` instead of the StringToNumber reader: `0 == \"\"`, `1 == \" 1 \"` and `16 == \"0x10\"` are false, "
+                           "`Infinity == \"inf\"` is true, `Number.parseFloat(\"inf\")` is Infinity and `Number.parseFloat(\"3.5px\")` is NaN" % top3)
+
     # R3c: a fixed-width integer parser never produces a script number.  `i64::from_str_radix` / `u64::from_str_radix` / `parse::<i64>()` fail on
     # text that is a perfectly good number beyond 64 bits; whatever the caller substitutes (0, NaN) is wrong, and an integer accumulator over the
     # digits overflows (a panic in debug builds, a wrapped value in release).  Wide text goes through the one reader with an overflow fall-back.
